@@ -101,15 +101,25 @@ def classify(scn, known, plan, viol):
 
 
 # -- one plan -----------------------------------------------------------------------------------
+_TIMEOUT = [60]
+
+
+def heartbeat():
+    """Called by scenarios after every evaluation / step: the hang alarm measures one step, not a whole
+    enumeration (a long enumeration is not a hang)."""
+    signal.setitimer(signal.ITIMER_REAL, _TIMEOUT[0])
+
+
 def execute_guarded(scn, plan, keep_log=False, timeout=60):
     """Execute a plan under the hang alarm.  -> outcome dict (always has 'violations')."""
     old = signal.signal(signal.SIGALRM, _alarm)
+    _TIMEOUT[0] = timeout
     signal.setitimer(signal.ITIMER_REAL, timeout)
     try:
         out = scn.execute(plan, keep_log=keep_log)
     except HangError:
         out = {
-            "violations": [{"invariant": "%s.hang" % plan["property"], "detail": "run exceeded %ss of wall time" % timeout, "info": {}}],
+            "violations": [{"invariant": "%s.hang" % plan["property"], "detail": "one step of the run did not return within %ss of wall time" % timeout, "info": {}}],
             "digest": "hang", "stats": collections.Counter(), "states": set(), "evals": 1, "sim_us": 0,
         }  # fmt: skip
     finally:
@@ -165,6 +175,97 @@ def _worker(args):
                 else:
                     if sum(1 for (_, _, vv) in res["viol"] if vv["invariant"] == v["invariant"]) < 2:
                         res["viol"].append((i, plan, v))
+        except Exception:
+            res["errors"].append((i, traceback.format_exc()))
+            if len(res["errors"]) > 3:
+                break
+        finally:
+            faulthandler.cancel_dump_traceback_later()
+    return res
+
+
+def mutate_ops(plan, rng, fix=None):
+    """Generic plan mutation for the feedback corpus: duplicate / delete / swap / move one op."""
+    import copy
+
+    p = copy.deepcopy(plan)
+    ops = p.get("ops") or []
+    if ops:
+        k = rng.choice(["dup", "del", "swap", "move", "dup"])
+        i = rng.randrange(len(ops))
+        if k == "dup":
+            ops.insert(rng.randrange(len(ops) + 1), copy.deepcopy(ops[i]))
+        elif k == "del" and len(ops) > 1:
+            del ops[i]
+        elif k == "swap" and len(ops) > 1:
+            j = min(len(ops) - 1, i + 1)
+            ops[i], ops[j] = ops[j], ops[i]
+        else:
+            op = ops.pop(i)
+            ops.insert(rng.randrange(len(ops) + 1), op)
+        p["ops"] = ops
+    if fix:
+        q = fix(p)
+        if q is not None:
+            p = q
+    return p
+
+
+def _lane(args):
+    """Thorough tier: one long-running lane per worker with its own decision stream and a corpus of
+    plans that reached an abstract state this lane had not seen (state-coverage feedback)."""
+    prop, master, tier, lane, n_lanes, n_runs, known = args
+    try:
+        resource.setrlimit(resource.RLIMIT_AS, (6 << 30, 6 << 30))
+    except Exception:
+        pass
+    faulthandler.enable()
+    scn = load_scenario(prop)
+    res = {
+        "runs": 0, "evals": 0, "stats": collections.Counter(), "states": set(), "sim_us": 0,
+        "viol": [], "known_seen": collections.Counter(), "known_example": {}, "det": [], "errors": [], "samples": [],
+        "digests": {}, "corpus": 0, "mutated": 0,
+    }  # fmt: skip
+    r = random.Random(run_seed(master, prop + "/lane", lane))
+    corpus = []
+    t_end = args_deadline()
+    mut = getattr(scn, "mutate", None)
+    for i in range(lane, n_runs, n_lanes):
+        if t_end and time.time() > t_end:
+            res["budget_exhausted"] = True
+            break
+        s = run_seed(master, prop, i)
+        faulthandler.dump_traceback_later(600, exit=True)
+        try:
+            if mut and corpus and r.random() < 0.5:
+                plan = mut(r.choice(corpus), r)
+                res["mutated"] += 1
+            else:
+                plan = scn.generate(random.Random(s), tier, i)
+            plan.update({"property": prop, "seed": s, "index": i, "tier": tier})
+            out = execute_guarded(scn, plan, timeout=120)
+            res["runs"] += 1
+            res["evals"] += out.get("evals", 1)
+            res["stats"].update(out["stats"])
+            new = out["states"] - res["states"]
+            res["states"] |= out["states"]
+            res["sim_us"] += out.get("sim_us", 0)
+            if new and not out["violations"]:
+                corpus.append(plan)
+                if len(corpus) > 300:
+                    del corpus[r.randrange(len(corpus))]
+                res["corpus"] += 1
+            if res["runs"] % 997 == 1:
+                out2 = execute_guarded(scn, plan, timeout=120)
+                res["det"].append((i, out["digest"], out2["digest"]))
+            if len(res["samples"]) < 2 and out.get("sample") is not None:
+                res["samples"].append(out["sample"])
+            for v in out["violations"]:
+                key = classify(scn, known, plan, v)
+                if key:
+                    res["known_seen"][key] += 1
+                elif sum(1 for (_, _, vv) in res["viol"] if vv["invariant"] == v["invariant"]) < 2:
+                    res["viol"].append((i, plan, v))
         except Exception:
             res["errors"].append((i, traceback.format_exc()))
             if len(res["errors"]) > 3:
@@ -294,6 +395,10 @@ def replay(prop, path):
         print("  | " + line)
     if hit:
         print("replay: %s: %s" % (hit[0]["invariant"], hit[0]["detail"]))
+        known, _ = load_known(prop)
+        key = classify(scn, known, doc, hit[0])
+        if key:
+            print("replay: note: structurally this is the known finding key=%s (a check run prints it as KNOWN-FINDING and exits 0)" % key)
         if expect.get("digest") and expect["digest"] != out["digest"]:
             print("replay: note: event-log digest differs from the recorded one (tree changed?) %s != %s" % (out["digest"], expect["digest"]))
         print("VIOLATION property=%s replay=%s" % (prop, path))
@@ -348,8 +453,12 @@ def run_check(prop, tier):
     }  # fmt: skip
     harness_errors = []
     ctx = multiprocessing.get_context("fork")
+    lanes = tier == "thorough" and os.environ.get("VERIF_FEEDBACK", "1") != "0"
     with cf.ProcessPoolExecutor(max_workers=workers, mp_context=ctx) as ex:
-        futs = [ex.submit(_worker, j) for j in jobs]
+        if lanes:
+            futs = [ex.submit(_lane, (prop, master, tier, k, workers, n_runs, known)) for k in range(workers)]
+        else:
+            futs = [ex.submit(_worker, j) for j in jobs]
         try:
             for f in cf.as_completed(futs, timeout=budget_s + 600):
                 try:
@@ -372,6 +481,8 @@ def run_check(prop, tier):
                 agg["errors"] += r["errors"]
                 agg["samples"] += r["samples"][:1]
                 agg["budget_exhausted"] |= bool(r.get("budget_exhausted"))
+                agg["corpus"] = agg.get("corpus", 0) + r.get("corpus", 0)
+                agg["mutated"] = agg.get("mutated", 0) + r.get("mutated", 0)
         except cf.TimeoutError:
             harness_errors.append("timeout waiting for workers")
             for p in list(getattr(ex, "_processes", {}).values()):
@@ -447,6 +558,7 @@ def run_check(prop, tier):
         "known_findings_seen": dict(agg["known_seen"]),
         "fixed_findings_listed": fixed,
         "budget_exhausted": agg["budget_exhausted"],
+        "feedback": {"enabled": bool(lanes), "plans_kept_in_corpus": agg.get("corpus", 0), "runs_from_mutation": agg.get("mutated", 0)},
         "components": {"real": REAL_COMPONENTS, "stub": STUB_COMPONENTS},
         "determinism_sample": {"same_process_twice": len(agg["det"]), "cross_process": cross, "digests_equal": not bad_det and not any("digest differs" in e for e in harness_errors)},
         "repo": repo_info(),
